@@ -22,7 +22,7 @@ from ..report import Report
 from ..resolve import CallGraph
 from ..sym import (FALSE, NONE, TRUE, Evaluator, Frame, Term, Unsupported, atoms_of, show, subst, subterms, sym, t_and, t_cmp, t_not,
                    t_or, satisfiable)
-from .common import call_arg, call_args, effect_calls, is_call_of, loop_of, node_iterator_domain, norm_stmt, strip_identity_wrappers
+from .common import call_arg, call_args, effect_calls, is_call_of, lifted_to_callers, loop_of, node_iterator_domain, norm_stmt, strip_identity_wrappers
 
 GRAPH_STATE = {"_outgoing_pointers", "_incoming_pointers", "_cached_branch_iterator", "_cached_leaf_nodes", "_circuit_graph",
                "_structure", "_added_operations", "_entrypoint_node", "_endpoint_node"}
@@ -109,8 +109,11 @@ def l1(model: Model, rep: Report):
                 result_vars.add(apps[0][1][1])
             # (b) inner loop
             inner = [e for e in bp.events if e.kind == "loop"]
+            if not inner:
+                # another way of computing the next layer (nested comprehensions, itertools): not a shape this rule reads
+                raise AnalysisError(f"{construct}: the next layer is not computed by a scan loop over the current layer (shape not recognised; nothing decided)")
             if len(inner) != 1 or inner[0].term != CUR:
-                problems.append("the nodes of the layer are not all visited" if inner else "no scan over the layer")
+                problems.append("the nodes of the layer are not all visited")
                 continue
             L = inner[0]
             elem = ("bound", "for", L.node.lineno, show(L.term))
@@ -324,7 +327,7 @@ def l4(model: Model, rep: Report, tier: str):
                     continue
                 ev = Evaluator(model, inline_methods=False)
                 try:
-                    ps = PathEnumerator(ev).function_paths(f, self_cls=B)
+                    ps = PathEnumerator(ev, no_inline=("GraphBranch._update_branch_iterator",)).function_paths(f, self_cls=B)
                 except Unsupported:
                     continue
                 s = sym(f.self_name)
@@ -336,9 +339,11 @@ def l4(model: Model, rep: Report, tier: str):
             f = fs[0]
             if f.kind != "method" or name in ("__post_init__", "__repr__", "_update_branch_iterator", "update_point_leafs_to_endpoint"):
                 continue
+            if lifted_to_callers(model, f, within=graph_classes):
+                continue  # run in place at its callers (which are checked here)
             ev = Evaluator(model, inline_methods=False)
             try:
-                ps = PathEnumerator(ev).function_paths(f, self_cls=B)
+                ps = PathEnumerator(ev, no_inline=("GraphBranch._update_branch_iterator",)).function_paths(f, self_cls=B)
             except Unsupported as e:
                 raise AnalysisError(f"{f.qualname}: {e}")
             s = sym(f.self_name)
